@@ -211,6 +211,12 @@ def StageReference(dataReference,  # type: experiment.model.graph.DataReference
                 dest = os.path.join(dest, destName)
                 shutil.copytree(reference, dest, symlinks=True)
             else:
+                staged = os.path.join(dest, os.path.split(reference)[1])
+                if os.path.islink(staged):
+                    # VV: another reference with the same file name has been staged as a link, copying would write
+                    #     through the link and modify the file of its producer
+                    raise OSError("Cannot copy %s to %s which is a link to %s" % (
+                        reference, staged, os.path.realpath(staged)))
                 shutil.copy(reference, dest)
         elif dataReference.method == experiment.model.graph.DataReference.Link:
             name = os.path.split(reference)[1]
